@@ -320,7 +320,7 @@ func RunParent(ck *Check, root, tier string, seed uint64, only []int) int {
 					"-from", fmt.Sprint(c.from), "-to", fmt.Sprint(c.to), "-out", out)
 				cmd.Stdout = lf
 				cmd.Stderr = lf
-				cmd.Env = append(os.Environ(), "POD_ID=onos-config-0", "GORACE=halt_on_error=0 log_path="+filepath.Join(workDir, fmt.Sprintf("race-%d", no)))
+				cmd.Env = append(os.Environ(), "POD_ID=onos-config-0", "VERIF_WORK="+workDir, "GORACE=halt_on_error=0 log_path="+filepath.Join(workDir, fmt.Sprintf("race-%d", no)))
 				timedOut := false
 				if err := cmd.Start(); err != nil {
 					fmt.Fprintf(os.Stderr, "cannot start child: %v\n", err)
